@@ -1101,6 +1101,19 @@ def main(out_path):
 
     globals()['LAST_SOFT_FAILURES'] = soft_failures
 
+    def ex_policy_parser_keys():
+        # Policy.__init__: which keys a policy file may use (the invalid-key test), which keys hold quoted strings and which hold algorithm lists
+        t_pol = ast.parse(src('policy.py'))
+        ini = func_node(t_pol, 'Policy.__init__')
+        bad = [n for n in ast.walk(ini) if isinstance(n, ast.If) and ast.unparse(n.test).startswith("key not in ['name'")]
+        need(len(bad) == 1 and isinstance(bad[0].body[-1], ast.Raise), 'Policy.__init__: the invalid-key test')
+        w(kernel('src_policy_key_invalid', [('key', 'string')], [ast.Return(value=bad[0].test)]))
+        lists = [n for n in ast.walk(ini) if isinstance(n, ast.If) and isinstance(n.test, ast.Compare) and ast.unparse(n.test.left) == 'key' and isinstance(n.test.ops[0], ast.In) and isinstance(n.test.comparators[0], ast.List)]
+        got = [lit(n.test.comparators[0]) for n in sorted(lists, key=lambda x: x.lineno)]
+        need(len(got) == 2 and got[0] == ['name', 'banner'], 'Policy.__init__: quoted-string keys and list keys: %r' % (got,))
+        w('Definition src_policy_quoted_keys : list string := ' + cstrs(got[0]) + '. Definition src_policy_list_keys : list string := ' + cstrs(got[1]) + '.')
+    soft('keys of the policy file format (Policy.__init__)', ['C05'], ex_policy_parser_keys)
+
     def ex_policy_decisions():
         # Policy.evaluate(): every decision of the function as an expression over the policy's and the peer's values, in source order, plus the error labels in source order
         t_pol = ast.parse(src('policy.py'))
